@@ -532,6 +532,7 @@ int __wrap_open(const char* path, int flags, ...) {
         return __real_open(path, flags, mode);
     }
     yield_point(SITE_IO);
+    if (srcplan.mmap_path_fault == 1) { io.src_fault_fired = true; SIM_COUNT("fault.open_fail"); errno = EMFILE; L.ev("open", -2); return -1; }
     bool wr = (flags & O_ACCMODE) != O_RDONLY;
     if (wr && (flags & (O_CREAT | O_TRUNC))) { if ((flags & O_TRUNC) || !D.files.count(path)) D.files[path] = SimFile(); }
     if (!D.files.count(path)) { errno = ENOENT; L.ev("open", -1); return -1; }
@@ -671,6 +672,7 @@ off_t __wrap_ftello(FILE* f) {
 int __wrap_fstat(int fd, struct stat* st) {
     auto it = g_fds.find(fd);
     if (it == g_fds.end()) return __real_fstat(fd, st);
+    if (srcplan.mmap_path_fault == 2) { io.src_fault_fired = true; SIM_COUNT("fault.fstat_fail"); errno = EIO; L.ev("fstat", -1); return -1; }
     memset(st, 0, sizeof *st);
     auto f = D.files.find(it->second.path);
     if (f == D.files.end()) { errno = EIO; return -1; }
@@ -685,6 +687,7 @@ void* __wrap_mmap(void* addr, size_t len, int prot, int flags, int fd, off_t off
     if (it == g_fds.end()) return __real_mmap(addr, len, prot, flags, fd, off);
     yield_point(SITE_IO);
     io.mmaps++;
+    if (srcplan.mmap_path_fault == 3) { io.src_fault_fired = true; SIM_COUNT("fault.mmap_fail"); errno = ENOMEM; L.ev("mmap", 0, -2); return MAP_FAILED; }
     if (len == 0) { errno = EINVAL; L.ev("mmap", 0, -1); return MAP_FAILED; }
     auto f = D.files.find(it->second.path);
     if (f == D.files.end()) { errno = EIO; return MAP_FAILED; }
